@@ -713,9 +713,64 @@ func c15ExpiredEntries(w *core.WorkerCtx) {
 	w.R.Count("c15_expired_entry_patterns", 8)
 }
 
+// c15RefusedOnKnownParents: vertices that the ledger refuses only after it has looked at their parents - a child of an
+// overdrawing tip (the tip fails its funds test when the child arrives), a child whose weight is far below the window,
+// a second vertex for a transaction that is sealed already - must leave nothing behind (the dropped tip aside).
+func c15RefusedOnKnownParents(w *core.WorkerCtx) {
+	rig, err := svc.New(4, 60, 2048)
+	if err != nil {
+		w.R.Inconc("cannot build the node: " + err.Error())
+		return
+	}
+	defer rig.Close()
+	e := &c15env{w: w, rig: rig, rng: core.Rand(w.Seed, "C15refused", w.Batch)}
+	for _, u := range rig.Users {
+		e.addrs = append(e.addrs, u.Addr)
+	}
+	ctx := context.Background()
+	u := rig.Users
+	send := func(v *accountant.Vertex) (any, error) {
+		rig.Flash.RemoveAddress(string(v.Hash[:]))
+		return rig.Gossip.GossipVrx(ctx, &protobufcompiled.VrxMsgGossip{Vertex: gossip.VerifVertexToProtoVertex(v)})
+	}
+	tipOf := func() (ledger.H, uint64) {
+		s, _ := ledger.TakeSnap(rig.Book)
+		var tip ledger.H
+		var wgt uint64
+		for h := range s.Leaves {
+			if v, ok := s.Vertex(h); ok && v.Weight >= wgt {
+				tip, wgt = h, v.Weight
+			}
+		}
+		return tip, wgt
+	}
+	for round := 0; round < 12; round++ {
+		tip, wgt := tipOf()
+		// an overdrawing tip (admitted: a tip is judged when it is built upon)
+		over := ledger.ForgeTrx(u[1+round%2], u[3].Addr, fmt.Sprintf("overdraw %d", round), nil, spice.Melange{Currency: 1 << 40}, time.Now().Add(-time.Minute))
+		ov := ledger.ForgeVertex(rig.PeerAct[0], over, tip, tip, wgt+1, time.Now().Add(-time.Second))
+		send(&ov)
+		ct := ledger.ForgeTrx(u[0], u[1].Addr, fmt.Sprintf("child of an overdrawing tip %d", round), []byte("c"), spice.Melange{}, time.Now().Add(-time.Minute))
+		cv := ledger.ForgeVertex(rig.PeerAct[1], ct, ov.Hash, ov.Hash, wgt+2, time.Now().Add(-time.Second))
+		e.last = nil
+		e.call("gossip", "GossipVrx", "child of an overdrawing tip (refused after its parent was looked at)", false, func() (any, error) { return send(&cv) })
+		// a second vertex for a sealed transaction, on known parents
+		tip, wgt = tipOf()
+		ht := ledger.ForgeTrx(u[0], u[2].Addr, fmt.Sprintf("held %d", round), []byte("h"), spice.Melange{}, time.Now().Add(-time.Minute))
+		hv := ledger.ForgeVertex(rig.PeerAct[0], ht, tip, tip, wgt+1, time.Now().Add(-time.Second))
+		send(&hv)
+		tip2, wgt2 := tipOf()
+		dv := ledger.ForgeVertex(rig.PeerAct[1], ht, tip2, tip2, wgt2+1, time.Now().Add(-time.Second))
+		e.last = nil
+		e.call("gossip", "GossipVrx", "second vertex for a sealed transaction", false, func() (any, error) { return send(&dv) })
+	}
+	w.R.Count("c15_refused_on_known_parents_rounds", 12)
+}
+
 func c15Worker(w *core.WorkerCtx) {
 	if w.Batch%4 == 0 {
 		c15ExpiredEntries(w)
+		c15RefusedOnKnownParents(w)
 	}
 	if w.Batch%4 == 1 {
 		c15Concurrent(w)
